@@ -39,6 +39,9 @@ Entries ==
     [e |-> "Auth::compute_and_verify",             ovh |-> 0,  fam |-> "mac"],
     [e |-> "crypto_onetimeauth_verify",            ovh |-> 0,  fam |-> "mac"],
     [e |-> "OnetimeAuth::compute_and_verify",      ovh |-> 0,  fam |-> "mac"],
+    [e |-> "crypto_onetimeauth_init/update/final (every split)", ovh |-> 0, fam |-> "mac"],
+    [e |-> "OnetimeAuth::new/update/verify (every split)",         ovh |-> 0, fam |-> "mac"],
+    [e |-> "Auth::new/update/verify (every split)",                ovh |-> 0, fam |-> "mac"],
     [e |-> "crypto_pwhash_str_verify",             ovh |-> 0,  fam |-> "pwstr"],
     [e |-> "crypto_pwhash_str_needs_rehash",       ovh |-> 0,  fam |-> "pwstr"],
     [e |-> "PwHash::from_string+verify",           ovh |-> 0,  fam |-> "pwstr"],
